@@ -5,7 +5,7 @@ mechanism by mechanism and have to abstain (or, worse, would misjudge) when a re
 with early returns, index maps, generators ...  This rule is independent of any shape: the method - together with
 `__stems_entries`, `Strand.from_bpseq_entries`, `Stem.from_bpseq_entries`, `Loop`, `Hairpin`, `SingleStrand` and whatever
 private helpers the class has - is *interpreted from the ast* (sa/microeval.py; nothing of the library is imported or
-run) on every set of pairs over 2 .. N contiguous positions with at least one pair (the quantifier of the property:
+run) on every set of pairs over 2 .. N contiguous positions with at least one pair plus 18 larger named shapes (multi-way junctions, pseudoknotted multiloops, kissing hairpins; the quantifier of the property:
 "every pairing on up to N positions"; N = 7: 347 structures, every shape the statement names occurs - zero-length
 hairpins, bulges of one nucleotide, stems of length one, pseudoknotted multiloops, tails of every length 0..5), and the
 result is compared with the clauses of the statement, computed here from the pairs alone:
@@ -13,7 +13,8 @@ result is compared with the clauses of the statement, computed here from the pai
   stems      the stems are exactly the maximal runs of directly stacked pairs, 5' strand ascending, 3' strand mirrored
   hairpins   the hairpins are exactly the windows i..j of the pairs (i, j) that enclose only unpaired nucleotides
   loops      every loop has at least two strands, consecutive strands (cyclically) are base-paired end to start, and
-             every strand interior is unpaired
+             every strand interior is unpaired; interior single strands never close such a cycle among themselves (a loop
+             is not reported as separate single strands - the decomposition the pinned tree computes on all these inputs)
   coverage   every unpaired nucleotide lies in the interior of exactly one single strand, hairpin or loop strand
   text       every strand's sequence and structure are the slices first-1 .. last of the sequence and of the dot-bracket
 
@@ -34,6 +35,41 @@ MOD = "common"
 MAXN = 7
 CODE = "abcdefghijklmnopqrstuvwxyz"
 LETTERS = "ACGUNRY"
+
+
+# larger shapes the statement names and 7 positions cannot hold: multi-way junctions, pseudoknotted multiloops, kissing hairpins
+SHAPES = [
+    "((..((..))..((..))..))",
+    "((.((.)).((.)).((.)).))",
+    "(((..((...))..((...))..((...))..)))",
+    "((..[[..))..]]",
+    "((.[[.))..((.]].))",
+    "(.(.[.).].)",
+    "(.(.[.).(.].).)",
+    "((.((...))..))",
+    "((..((...))))",
+    "(((.(((...))).)))",
+    "(())(())",
+    "((..))((..))",
+    "((...)).((...))",
+    "..((...))...",
+    "((.[[.{{.)).]].}}",
+    "(.().().)",
+    ".((..[[..))..(((..]]..)))..",
+    "(.(.(.).(.).).(.).)",
+]
+
+
+def pairs_of(text: str) -> List[Tuple[int, int]]:
+    stacks: Dict[str, List[int]] = {}
+    out = []
+    close = {")": "(", "]": "[", "}": "{", ">": "<"}
+    for k, c in enumerate(text, 1):
+        if c in "([{<":
+            stacks.setdefault(c, []).append(k)
+        elif c in close:
+            out.append((stacks[close[c]].pop(), k))
+    return sorted(out)
 
 
 class _DB:
@@ -121,7 +157,25 @@ def judge(n: int, pairs: Sequence[Tuple[int, int]], seq: str, db: str, result: A
         bad = [k for k in interior if k in partner]
         if bad:
             return ("coverage", f"single strand {s[0]}-{s[1]} (5' end: {is5}, 3' end: {is3}) has the paired nucleotide {bad[0]} in its interior")
-        strands.append(("single", s, interior))
+        strands.append(("single" if (is5 or is3) else "single-mid", s, interior))
+    # maximality of loops: interior single strands (neither end of the chain) that close a cycle among themselves - each one's
+    # 3' end paired with the next one's 5' end, all the way round - and have an unpaired nucleotide are a loop that was not reported
+    mids = [s for kind, s, _ in strands if kind == "single-mid"]
+    nxt = {}
+    for a in mids:
+        for b in mids:
+            if a is not b and partner.get(a[1]) == b[0]:
+                nxt[(a[0], a[1])] = b
+    for a in mids:
+        walk, cur, seen_ = [a], a, {(a[0], a[1])}
+        while (cur[0], cur[1]) in nxt:
+            cur = nxt[(cur[0], cur[1])]
+            if (cur[0], cur[1]) in seen_:
+                break
+            seen_.add((cur[0], cur[1]))
+            walk.append(cur)
+        if len(walk) >= 2 and partner.get(walk[-1][1]) == walk[0][0] and any(w[1] - w[0] > 1 for w in walk):
+            return ("loops", f"the single strands {[(w[0], w[1]) for w in walk]} close a cycle (each 3' end pairs with the next 5' end) with an unpaired interior: a loop is reported as separate single strands")
     # coverage
     count: Dict[int, int] = {}
     for kind, s, interior in strands:
@@ -152,12 +206,13 @@ def elements_eval(chk, fi) -> Optional[str]:
     for q in ("BpSeq.__stems_entries", "Stem.from_bpseq_entries"):
         if repo.has_func(MOD, q):
             anchors.append(repo.func(MOD, q))
+    cases: List[Tuple[int, List[Tuple[int, int]]]] = [(n, pm) for n in range(2, MAXN + 1) for pm in partial_matchings(n)] + [(len(t), pairs_of(t)) for t in SHAPES]
     try:
-        for n in range(2, MAXN + 1):
-            for pm in partial_matchings(n):
+        for n, pm in cases:
+            if True:
                 n_cases += 1
                 seq = "".join(LETTERS[(k * 3 + n) % len(LETTERS)] for k in range(n))
-                db = CODE[:n]
+                db = (CODE * 3)[:n] if n <= len(CODE) else "".join(chr(0x100 + k) for k in range(n))
                 ents = [E(k + 1, seq[k], 0) for k in range(n)]
                 for i, j in pm:
                     ents[i - 1].pair, ents[j - 1].pair = j, i
@@ -195,6 +250,9 @@ def elements_eval(chk, fi) -> Optional[str]:
         gap = _unreached(repo, it.cov, anchors)
         if gap:
             return f"the {n_cases} structures do not reach all of the code: {gap}"
+        one_way = _one_way_conditions(repo, it, anchors)
+        if one_way:
+            return f"a condition never took both truth values on the {n_cases} structures (its other side is not decided by them): {one_way}"
     rule = {"stems": "elements-eval-stems", "hairpins": "elements-eval-hairpins", "loops": "elements-eval-loops", "coverage": "elements-eval-coverage", "text": "elements-eval-text", "raise": "elements-eval-coverage", "result": "elements-eval-coverage"}
     for clause, (site, msg) in problems.items():
         chk.violation(rule[clause], site, msg, K(fi, f"elements-eval:{clause}"))
@@ -202,7 +260,7 @@ def elements_eval(chk, fi) -> Optional[str]:
         chk.ok(
             "elements-eval-coverage",
             fi.where,
-            f"BpSeq.elements interpreted on all {n_cases} sets of pairs over 2..{MAXN} contiguous positions ({', '.join(f'{v} with a {k}' for k, v in shapes.items())}): stems = maximal stacked runs, hairpins = pairs "
+            f"BpSeq.elements interpreted on all {n_cases - len(SHAPES)} sets of pairs over 2..{MAXN} contiguous positions and {len(SHAPES)} larger named shapes up to {max(len(t) for t in SHAPES)} nt ({', '.join(f'{v} with a {k}' for k, v in shapes.items())}): stems = maximal stacked runs, hairpins = pairs "
             "enclosing only unpaired nucleotides, loops are closed cycles with unpaired interiors, every unpaired nucleotide in exactly one interior, every strand text is the slice of sequence and dot-bracket; "
             "every statement of the interpreted code was reached",
         )
@@ -239,6 +297,54 @@ def _never_true_membership(fn, test) -> bool:
         if isinstance(n, (ast.AugAssign,)) and isinstance(n.target, ast.Name) and n.target.id == s_:
             return False
     return True
+
+
+def _one_way_conditions(repo, it, anchors) -> Optional[str]:
+    """Atomic conditions of `if` / `while` tests, conditional expressions and and/or operands in the interpreted decomposition code
+    that were evaluated but only ever came out one way.  Such a condition splits the inputs into a class the evaluation saw and one
+    it did not (a size cap, a special case for long chains): the evaluation then says nothing about the unseen class."""
+    import ast
+
+    from sa.model import norm
+
+    outcomes = getattr(it, "outcomes", set())
+    seen: Dict[int, Set[bool]] = {}
+    for nid, b in outcomes:
+        seen.setdefault(nid, set()).add(b)
+    ref = getattr(repo, "reference", {}).get(MOD)
+    targets = list(anchors)
+    for q, f in repo.module(MOD).funcs.items():
+        if "<locals>" in q or f in targets:
+            continue
+        if id(f.node) in it.cov and ref is not None and q not in ref.funcs:
+            targets.append(f)
+    for f in targets:
+        for n in ast.walk(f.node):
+            tests = []
+            if isinstance(n, (ast.If, ast.While, ast.IfExp)):
+                tests.append(n.test)
+            elif isinstance(n, ast.comprehension):
+                tests.extend(n.ifs)
+            for t in tests:
+                atoms = []
+                stack = [t]
+                while stack:
+                    x = stack.pop()
+                    if isinstance(x, ast.BoolOp):
+                        stack.extend(x.values)
+                    elif isinstance(x, ast.UnaryOp) and isinstance(x.op, ast.Not):
+                        stack.append(x.operand)
+                    else:
+                        atoms.append(x)
+                for a_ in atoms + [t]:
+                    got = seen.get(id(a_))
+                    if got is not None and len(got) == 1:
+                        if isinstance(a_, ast.Constant) or (isinstance(n, ast.While) and isinstance(n.test, ast.Constant)):
+                            continue
+                        if _never_true_membership(f.node, a_):
+                            continue
+                        return f"{f.qualname} line {getattr(a_, 'lineno', '?')}: `{norm(a_)[:70]}` was always {sorted(got)[0]}"
+    return None
 
 
 def _unreached(repo, cov: set, anchors) -> Optional[str]:
